@@ -51,18 +51,28 @@ theorem keepSeg_iff (h : K) : keepSeg h ↔ h ≠ 0 := by
     rw [num_eqb] at this
     exact hne (by simpa using this)
 
+/-- the slack of a segment: the larger of the slacks at its two ends (`xold + h` carries the rounding error of the larger end) -/
+def segSlack (s : Seg K) : K := max (tol (min s.xold (s.xold + s.h))) (tol (max s.xold (s.xold + s.h)))
+
 theorem hit_iff (t : K) (s : Seg K) :
-    hit t s = true ↔ min s.xold (s.xold + s.h) - tol (min s.xold (s.xold + s.h)) ≤ t ∧ t ≤ max s.xold (s.xold + s.h) + tol (max s.xold (s.xold + s.h)) := by
-  unfold hit inSeg segLeft segRight
-  simp [ge_iff_le]
+    hit t s = true ↔ min s.xold (s.xold + s.h) - segSlack s ≤ t ∧ t ≤ max s.xold (s.xold + s.h) + segSlack s := by
+  unfold hit inSeg segLeft segRight segSlack segTol
+  simp [ge_iff_le, num_fmax]
+
+/-- a point within the slack of either end (each end with its own slack) is found -/
+theorem hit_of_ends {t : K} {s : Seg K} (h1 : min s.xold (s.xold + s.h) - tol (min s.xold (s.xold + s.h)) ≤ t)
+    (h2 : t ≤ max s.xold (s.xold + s.h) + tol (max s.xold (s.xold + s.h))) : hit t s = true := by
+  rw [hit_iff]
+  have a1 : tol (min s.xold (s.xold + s.h)) ≤ segSlack s := le_max_left _ _
+  have a2 : tol (max s.xold (s.xold + s.h)) ≤ segSlack s := le_max_right _ _
+  constructor <;> linarith
 
 /-- a point of the closed step interval is found in that step -/
 theorem hit_of_mem {t : K} {s : Seg K} (h1 : min s.xold (s.xold + s.h) ≤ t) (h2 : t ≤ max s.xold (s.xold + s.h)) :
     hit t s = true := by
-  rw [hit_iff]
-  have := tol_pos (min s.xold (s.xold + s.h))
-  have := tol_pos (max s.xold (s.xold + s.h))
-  constructor <;> linarith
+  apply hit_of_ends
+  · have := tol_pos (min s.xold (s.xold + s.h)); linarith
+  · have := tol_pos (max s.xold (s.xold + s.h)); linarith
 
 theorem hitExact_iff (t : K) (s : Seg K) :
     hitExact t s = true ↔ min s.xold (s.xold + s.h) ≤ t ∧ t ≤ max s.xold (s.xold + s.h) := by
@@ -201,18 +211,20 @@ theorem chain_cover_tol (fwd : Bool) (x : K) (s : Seg K) (r : List (Seg K)) (hc 
   by_cases hlow : t < min x (endOf x (s :: r))
   · -- below the span: the segment that carries the lower end
     refine ⟨a1, ha1, ?_⟩
-    rw [hit_iff, he1]
-    refine ⟨h1, ?_⟩
-    have := tol_pos (max a1.xold (a1.xold + a1.h))
-    have := hmm a1
-    linarith
+    apply hit_of_ends
+    · rw [he1]; exact h1
+    · have := tol_pos (max a1.xold (a1.xold + a1.h))
+      have := hmm a1
+      rw [he1] at this
+      linarith
   · by_cases hhigh : max x (endOf x (s :: r)) < t
     · refine ⟨a2, ha2, ?_⟩
-      rw [hit_iff, he2]
-      refine ⟨?_, h2⟩
-      have := tol_pos (min a2.xold (a2.xold + a2.h))
-      have := hmm a2
-      linarith
+      apply hit_of_ends
+      · have := tol_pos (min a2.xold (a2.xold + a2.h))
+        have := hmm a2
+        rw [he2] at this
+        linarith
+      · rw [he2]; exact h2
     · push_neg at hlow hhigh
       have hin : if fwd then x ≤ t ∧ t ≤ endOf x (s :: r) else endOf x (s :: r) ≤ t ∧ t ≤ x := by
         cases fwd <;> simp only [if_true, if_false, Bool.false_eq_true] at hstrict ⊢
